@@ -19,7 +19,7 @@ Cpx(a, b) == [t |-> "cpx", re |-> <<a, 1>>, im |-> <<b, 1>>]
 Meta(nm, tg, ty) == [name |-> nm, version |-> "1.0", target |-> tg, type |-> ty, incs |-> <<>>, body |-> <<>>]
 Metas == { Meta("rt", NoM, NoM),
            Meta("rt2", [name |-> "dev", hasargs |-> TRUE, args |-> <<>>,
-                        kw |-> <<Kw("shots", I(10)), Kw("flag", BoolE(TRUE)), Kw("l", LstE(<<I(1), F(5, 2), Bin("+", I(1), I(1))>>)), Kw("s", SStr("x")), Kw("z", Cpx(1, -2))>>],
+                        kw |-> <<Kw("shots", I(10)), Kw("flag", BoolE(TRUE)), Kw("l", LstE(<<I(1), F(5, 2), Bin("+", I(1), I(1)), Bin("/", I(1), I(4))>>)), Kw("s", SStr("x")), Kw("z", Cpx(1, -2))>>],
                        [name |-> "foo", hasargs |-> TRUE, args |-> <<>>, kw |-> <<Kw("copies", I(3)), Kw("ls", LstE(<<SStr("a"), BoolE(FALSE)>>))>>]) }
 \* parameter names overlap each other and function names on purpose
 \* declared before every script, so that each statement below is meaningful on its own
@@ -37,11 +37,14 @@ Items == {
   Stmt("K", TRUE, <<>>, <<>>, <<I(1)>>, "none"),
   Stmt("S", TRUE, <<F(1, 2), NegE(F(1, 4)), I(3), Cpx(1, 2), Cpx(0, -1)>>, <<>>, <<I(0)>>, "none"),
   Stmt("B", TRUE, <<Var("v"), Bin("/", I(1), I(3))>>, <<Kw("phi", Bin("*", Var("v"), I(2))), Kw("on", BoolE(TRUE)), Kw("s", SStr("txt"))>>, <<I(0), Bin("+", Var("n"), I(1))>>, "sq"),
-  Stmt("L", TRUE, <<>>, <<Kw("l", LstE(<<I(1), Bin("+", I(1), I(1)), F(5, 2), SStr("s"), BoolE(FALSE)>>)), Kw("e", LstE(<<>>))>>, <<I(2)>>, "none"),
+  Stmt("L", TRUE, <<>>, <<Kw("l", LstE(<<I(1), Bin("+", I(1), I(1)), F(5, 2), SStr("s"), BoolE(FALSE)>>)), Kw("e", LstE(<<>>)),
+                            Kw("fl", LstE(<<Bin("*", Var("v"), I(2)), Bin("/", I(1), I(4)), [t |-> "idx", x |-> "M", e |-> I(1)], Bin("*", Cpx(0, 1), I(2)), I(7)>>))>>, <<I(2)>>, "none"),
   Stmt("A", TRUE, <<Var("M")>>, <<Kw("c", Var("Cx")), Kw("z", Var("Z"))>>, <<I(0), I(1)>>, "par"),
   Stmt("T", TRUE, <<Par("a"), Bin("/", Bin("*", I(2), Par("ab")), I(3))>>, <<>>, <<I(0)>>, "none"),
   Stmt("T2", TRUE, <<Bin("*", [t |-> "pi"], Par("alpha")), Bin("**", Par("s"), I(2))>>, <<Kw("k", Par("al")), Kw("m", Bin("-", I(1), Par("sq")))>>, <<I(1)>>, "none"),
   Stmt("Ov", TRUE, <<Bin("+", Bin("*", Par("a"), Par("ab")), Par("al")), Bin("/", Par("alpha"), Par("al"))>>, <<Kw("w", Bin("-", Bin("*", I(2), Par("s")), Par("sq")))>>, <<I(0)>>, "none"),
+  Stmt("Np", TRUE, <<NegE([t |-> "brk", a |-> Bin("**", Par("a"), I(2))]), Bin("*", NegE(I(2)), Bin("**", Par("a"), I(3)))>>,
+                   <<Kw("m", Bin("-", I(0), Bin("**", Par("s"), I(3)))), Kw("r", NegE([t |-> "brk", a |-> Bin("**", Reg(0), I(2))]))>>, <<I(1)>>, "none"),
   Stmt("Rg", TRUE, <<Reg(0), Bin("*", I(2), Reg(1))>>, <<Kw("phi", Bin("+", Bin("*", F(1, 2), Reg(10)), Reg(1)))>>, <<I(2)>>, "none"),
   Stmt("MeasureX", FALSE, <<>>, <<>>, <<I(0)>>, "none"),
   [t |-> "for", ty |-> "int", x |-> "i", hdr |-> [t |-> "range", a |-> 0, b |-> 2, c |-> 0, hasc |-> FALSE],
